@@ -145,7 +145,7 @@ static struct module *module_load(const char *name)
     }
     func = dlsym(loading_module->handle, "module_constructor");
     if (func)
-        func(name);
+        func(mod->name);
     loading_module = prior;
     return mod;
 }
